@@ -453,13 +453,18 @@ def judge(cases, impls, workdir: Path, per_shard=None, th: Path | None = None):
 
 
 def load_known_d(chk: Check):
-    """known.d/C18.json is this property's part of known_findings.json (assembled by tools/mkmanifest.py); read it
-    directly so that the check does not depend on when the shared file was last assembled"""
+    """known.d/C18.json is this property's part of known_findings.json (assembled by tools/mkmanifest.py); it is read
+    directly and is authoritative, so that the check does not depend on when the shared file was last assembled"""
     p = VERIF / "known.d" / f"{PROP}.json"
     if p.exists():
+        chk.known = {"known": {}, "fixed": {}}
         for f in json.loads(p.read_text()).get("findings", []):
-            if f.get("property") == PROP and f.get("status") == "known":
-                chk.known["known"].setdefault(f["key"], f)
+            if f.get("property") != PROP:
+                continue
+            if f.get("status") == "known":
+                chk.known["known"][f["key"]] = f
+            elif str(f.get("status", "")).startswith("fixed"):
+                chk.known["fixed"][f["key"]] = f
 
 
 def classify(cfg, f):
